@@ -220,8 +220,19 @@ async def run_many_downloads(flavor, p, cnt, v, sigs):
     api = API(flavor, pool, net)
     done = {"n": 0}
 
+    abandon = p.get("abandon")
+
     async def many():
         for i in range(p["count"]):
+            if abandon and i < p["count"] - 3:
+                # the caller gives the response up: unread ('head'), or after its first chunk ('chunk'). The DATA frames that
+                # had already arrived for it used up connection-level credit all the same
+                resp, cm = await api.open("GET", "https://o.test/m", headers=[("X-Token", f"m{i}")])
+                if abandon == "chunk":
+                    await api.chunks(resp, limit=1)
+                await api.close(cm)
+                done["n"] += 1
+                continue
             r_ = await api.request("GET", "https://o.test/m", headers=[("X-Token", f"m{i}")])
             if len(r_.content) != size:
                 return False
@@ -233,11 +244,12 @@ async def run_many_downloads(flavor, p, cnt, v, sigs):
     cnt["oracle_progress"] += 1
     cnt["downloads_beyond_credit"] += 1
     ctx = {"params": p, "flavor": flavor}
-    sigs.add(f"many|{size}|{p['count']}|{flavor}")
+    sigs.add(f"many|{size}|{p['count']}|{flavor}|{abandon}")
+    cnt["abandoned_downloads"] = cnt.get("abandoned_downloads", 0) + (max(p["count"] - 3, 0) if abandon else 0)
     srv = [c.h2 for c in origin.conns if c.h2 is not None]
     win = srv[0].conn.outbound_flow_control_window if srv else None
     if out.kind == "hang":
-        v("download-stalled:many-responses", f"response {done['n'] + 1} of {p['count']} x {size} bytes on one connection never "
+        v("download-stalled:many-responses" + (":after-abandoned-responses" if abandon else ""), f"response {done['n'] + 1} of {p['count']} x {size} bytes on one connection never "
           f"arrived: the server's view of the client's connection window is {win} (credit for consumed DATA not returned)", ctx)
     elif out.kind != "ok" or out.value is not True:
         v(f"download-failed:many-responses:{exc_name(out.exc) if out.kind == 'exc' else 'short'}", f"{out!r}", ctx)
@@ -386,6 +398,9 @@ def plan(tier, seed):
     for i, (size, count) in enumerate([(16384, 1100), (1, 200), (16385, 600)] + ([(100, 3000), (16384, 2600)] if tier != "quick" else [])):
         for f in (flavors if tier != "quick" or size == 16384 else [flavors[i % 3]]):
             cases.append({"flavor": f, "params": [{"dir": "many", "size": size, "count": count}], "seed": seed + 200 + i})
+    for i, (size, count, how) in enumerate([(65536, 500, "head"), (65536, 700, "chunk")] + ([(20000, 1000, "head"), (200_000, 100, "chunk")] if tier != "quick" else [])):
+        for f in (flavors if tier != "quick" else [flavors[i % 3], flavors[(i + 1) % 3]]):
+            cases.append({"flavor": f, "params": [{"dir": "many", "size": size, "count": count, "abandon": how}], "seed": seed + 250 + i})
     for i, (slack, size) in enumerate([(100_000, 1_000_000), (2048, 70_000), (16384 * 3 + 5, 300_000)] if tier != "quick" else [(100_000, 1_000_000)]):
         for f in flavors:
             cases.append({"flavor": f, "params": [{"dir": "held", "slack": slack, "size": size}], "seed": seed + 300 + i})
